@@ -188,7 +188,7 @@ def registerStep (cfg : Cfg) (tr : List (Bytes × TransEntry)) (req : Bool) (con
       match getClientTransaction cfg.cm m' with
       | (none, _) => tr
       | (some tid, _) =>
-        match getTransport cfg tr (str "tcp") (stripBrackets hop.host) hop.port tid with
+        match getTransport cfg tr (str "tcp") (regHost cfg hop.host) hop.port tid with
         | none => tr
         | some (tr', key, e) => assocSet tr' key { e with primary := some (.conn c) }
   | _, _ => tr
@@ -211,7 +211,7 @@ theorem handleRawMessage_trans (cfg : Cfg) (st : St) (ev : RawEv) :
        obtain ⟨_ | tid, m''⟩ := r2
        · rfl
        · simp only
-         generalize getTransport cfg st.trans (str "tcp") (stripBrackets hop.host) hop.port tid = r3
+         generalize getTransport cfg st.trans (str "tcp") _ hop.port tid = r3
          obtain _ | ⟨tr', key, e⟩ := r3 <;> rfl)
 
 end Lemmas
